@@ -1,11 +1,512 @@
 import Driver.Json
+import OomdModel.RsCgroup
+import OomdModel.Generated.Consts
 
-/-! Driver glue for engine `rscgroup` (stub: not built yet). -/
+/-! Driver glue for engine `h_rscgroup` (C11).
+
+`accepts`: the model (`OomdModel.RsCgroup` for rulesets with a cgroup setting, `OomdModel.Engine.rsRun`
+for plain ones) reproduces the implementation's call log.  The resolve order (glob with GLOB_NOSORT)
+and the iteration order of `runnable_rulesets_` (unordered_map) are not fixed by the code: the
+resolve order of each tick is read off the implementation trace (order of first appearance) and must
+be a permutation of the scenario's matching set; the prerun phase is compared per instance, not as
+one interleaving.  Object identity: the model's (ruleset, path, generation, plugin) and the
+implementation's object serial numbers must be related by a bijection.
+
+`holds`: the clauses of C11 evaluated on the implementation trace and the scenario only (an
+independent reference checker; it never calls the model's functions). -/
 namespace Driver.Rscgroup
-open Lean
+open Lean OomdModel.Engine OomdModel.RsCgroup
+
+/-! ### scenario -/
+
+structure RsJ where
+  idx : Nat
+  cfg : Cfg
+  isCg : Bool
+  ownL : List (Nat × String)
+
+structure CgJ where
+  path : String
+  isDir : Bool
+  x : Bool
+  openable : Bool
+  xerr : Bool
+  m : List Nat          -- how often glob yields it, per ruleset
+
+structure TickJ where
+  gap : Nat
+  cgs : List CgJ
+  calls : List (String × List (Nat × Call))
+
+def parseCall (j : Json) : Call :=
+  let a := asArr j
+  let r := match asNat (a.getD 0 Json.null) with | 1 => Ret.stop | 2 => Ret.async | _ => Ret.cont
+  let p := asInt (a.getD 2 Json.null)
+  { ret := r, adv := asNat (a.getD 1 Json.null), pause := if p < 0 then none else some (p.toNat * NS) }
+
+def parseRs (idx : Nat) (j : Json) : RsJ :=
+  let d := jstr j "delay"
+  let h := jstr j "hook_timeout"
+  let acts := jarr j "actions"
+  let ownL : List (Nat × String) := acts.filterMap fun a => match a with
+    | Json.obj _ => (jstr? a "cgroup").map fun c => (jnat a "inst", c)
+    | _ => none
+  let rs : RsCfg :=
+    { rid := jnat j "rid"
+      groups := (jarr j "groups").map fun g => { gid := jnat g "gid", dets := (jarr g "dets").map asNat }
+      actions := acts.map fun a => match a with | Json.obj _ => jnat a "inst" | _ => asNat a
+      delay := (if d.isEmpty then OomdModel.Generated.defaultPostActionDelay else d.toNat!) * NS
+      hookTimeout := (if h.isEmpty then OomdModel.Generated.defaultPrekillHookTimeout else h.toNat!) * NS }
+  { idx := idx
+    cfg := { rs := rs, filter := !(jstr j "xattr_filter").isEmpty, own := fun i => ownL.lookup i }
+    isCg := !(jstr j "cgroup").isEmpty
+    ownL := ownL }
+
+def parseCg (j : Json) : CgJ :=
+  { path := jstr j "path"
+    isDir := (jstr? j "kind").getD "dir" == "dir"
+    x := jbool j "x"
+    openable := (jbool? j "open").getD true
+    xerr := jbool j "xerr"
+    m := (jarr j "m").map asNat }
+
+def parseTick (j : Json) : TickJ :=
+  let calls := match jobj j "calls" with
+    | Json.obj kvs => kvs.toList.map fun (cg, v) =>
+        (cg, match v with
+          | Json.obj kv2 => kv2.toList.map fun (k, c) => (k.toNat!, parseCall c)
+          | _ => [])
+    | _ => []
+  { gap := jnat j "gap", cgs := (jarr j "cgs").map parseCg, calls := calls }
+
+def scriptOf (t : TickJ) (cg : String) : Script := fun i => (((t.calls.lookup cg).getD []).lookup i).getD {}
+
+/-! ### implementation events -/
+
+inductive IEv
+  | i (inst serial : Nat) (arg : String)
+  | p (inst serial : Nat)
+  | d (inst serial now : Nat) (rcg : String)
+  | a (inst serial now : Nat) (rcg rs grp : String) (uuid : Int) (deadline : Int) (inv : Bool) (target key : String)
+  | x (inst serial : Nat)
+deriving BEq, Repr, Inhabited
+
+def parseIEv (j : Json) : IEv :=
+  let a := asArr j
+  let g (k : Nat) : Json := a.getD k Json.null
+  match asStr (g 0) with
+  | "i" => IEv.i (asNat (g 1)) (asNat (g 2)) (asStr (g 3))
+  | "p" => IEv.p (asNat (g 1)) (asNat (g 2))
+  | "d" => IEv.d (asNat (g 1)) (asNat (g 2)) (asNat (g 3)) (asStr (g 4))
+  | "x" => IEv.x (asNat (g 1)) (asNat (g 2))
+  | _ => IEv.a (asNat (g 1)) (asNat (g 2)) (asNat (g 3)) (asStr (g 4)) (asStr (g 5)) (asStr (g 6)) (asInt (g 7))
+      (asInt (g 8)) (asBool (g 9)) (asStr (g 10)) (asStr (g 11))
+
+def IEv.inst : IEv → Nat
+  | .i n _ _ => n | .p n _ => n | .d n _ _ _ => n | .a n _ _ _ _ _ _ _ _ _ _ => n | .x n _ => n
+def IEv.serial : IEv → Nat
+  | .i _ s _ => s | .p _ s => s | .d _ s _ _ => s | .a _ s _ _ _ _ _ _ _ _ _ => s | .x _ s => s
+def IEv.isX : IEv → Bool | .x _ _ => true | _ => false
+def IEv.isRun : IEv → Bool | .d _ _ _ _ => true | .a _ _ _ _ _ _ _ _ _ _ _ => true | _ => false
+def IEv.rcg : IEv → String
+  | .d _ _ _ r => r | .a _ _ _ r _ _ _ _ _ _ _ => r | _ => ""
+def IEv.now : IEv → Nat
+  | .d _ _ n _ => n | .a _ _ n _ _ _ _ _ _ _ _ => n | _ => 0
+
+structure ITick where
+  pre : List IEv
+  run : List IEv
+
+def evJ : IEv → Json
+  | .i n s a => Json.arr #["i", n, s, a]
+  | .p n s => Json.arr #["p", n, s]
+  | .d n s t r => Json.arr #["d", n, s, t, r]
+  | .a n s t r rs g u dl inv tg k => Json.arr #["a", n, s, t, r, rs, g, Json.num u, Json.num dl, inv, tg, k]
+  | .x n s => Json.arr #["x", n, s]
+
+/-! ### model run over all rulesets -/
+
+/-- identity of a plugin object in the model: ruleset index, instance path ("<T>" for the template
+or a plain ruleset), generation, plugin id -/
+structure Obj where
+  r : Nat
+  path : String
+  gen : Nat
+  plugin : Nat
+deriving BEq, Repr
+
+/-- model event in the implementation's vocabulary, with `Obj` in place of the serial -/
+inductive MEv
+  | i (o : Obj) (arg : String)
+  | p (o : Obj)
+  | d (o : Obj) (now : Nat) (rcg : String)
+  | a (o : Obj) (now : Nat) (rcg rs grp : String) (uuid : Nat) (deadline : Nat) (inv : Bool) (target key : String)
+deriving Repr
+
+def tmpl : String := "<T>"
+
+def argS (o : Option String) : String := o.getD "-"
+
+def ofEv (r : RsJ) (path : String) (gen : Nat) (rcg : String) (keyOf : Nat → String) : Ev → MEv
+  | Ev.prerun i => MEv.p ⟨r.idx, path, gen, i⟩
+  | Ev.det i n => MEv.d ⟨r.idx, path, gen, i⟩ n rcg
+  | Ev.act i n c inv => MEv.a ⟨r.idx, path, gen, i⟩ n rcg s!"r{c.ruleset}" s!"g{c.group}" c.uuid c.deadline inv rcg (keyOf i)
+
+def ofCEv (r : RsJ) : CEv → MEv
+  | CEv.tpre i => MEv.p ⟨r.idx, tmpl, 0, i⟩
+  | CEv.init p g i arg => MEv.i ⟨r.idx, p, g, i⟩ (argS arg)
+  | CEv.pre p g i => MEv.p ⟨r.idx, p, g, i⟩
+  | CEv.run p g e => ofEv r p g p (fun i => actionArg r.cfg p i) e
+
+inductive RsSt
+  | plain (st : RsState)
+  | cg (insts : List (Path × Inst)) (nextGen : Nat)
+
+structure MTick where
+  pre : List (List MEv)        -- per ruleset
+  run : List MEv
+  dropped : List (Nat × String × Nat)   -- (ruleset, path, generation) of discarded instances
+  ub : Bool
+
+/-- the resolve list handed to the model: the implementation's order of first evaluation, then the
+matching entries it did not evaluate, then the repeated occurrences -/
+def resolveList (r : RsJ) (t : TickJ) (order : List String) : List MatchIn :=
+  let mOf (c : CgJ) : Nat := if c.isDir then c.m.getD r.idx 0 else 0
+  let toM (c : CgJ) : MatchIn :=
+    { path := c.path, openable := c.openable, xattr := if c.xerr then XRes.err else if c.x then XRes.yes else XRes.no }
+  let matching := t.cgs.filter fun c => mOf c > 0
+  let first := order.filterMap fun p => (matching.find? fun c => c.path == p).map toM
+  let rest := (matching.filter fun c => !order.contains c.path).map toM
+  let dups := matching.flatMap fun c => List.replicate (mOf c - 1) (toM c)
+  first ++ rest ++ dups
+
+def modelTick (F : Fixes) (rss : List RsJ) (t : TickJ) (orders : List (List String)) (sts : List RsSt) (now ctr : Nat) :
+    MTick × List RsSt × Nat × Nat := Id.run do
+  let now0 := now + t.gap
+  let mut pre : List (List MEv) := []
+  for (r, st) in rss.zip sts do
+    match st with
+    | RsSt.plain _ => pre := pre ++ [(preruns r.cfg.rs).map (ofEv r tmpl 0 "-" (fun i => argS (r.cfg.own i)))]
+    | RsSt.cg insts _ => pre := pre ++ [(prerunPhase F r.cfg insts).map (ofCEv r)]
+  let mut run : List MEv := []
+  let mut out : List RsSt := []
+  let mut dropped : List (Nat × String × Nat) := []
+  let mut ub := false
+  let mut n := now0
+  let mut c := ctr
+  for (r, st) in rss.zip sts do
+    match st with
+    | RsSt.plain s =>
+      let res := rsRun F.invOnResume r.cfg.rs (scriptOf t "") s n c
+      run := run ++ res.2.1.map (ofEv r tmpl 0 "-" (fun i => argS (r.cfg.own i)))
+      out := out ++ [RsSt.plain res.1]
+      n := res.2.2.1
+      c := res.2.2.2
+    | RsSt.cg insts ng =>
+      let ms := resolveList r t (orders.getD r.idx [])
+      let res := runPhase F r.cfg { insts := insts, now := n, ctr := c, nextGen := ng } ms (scriptOf t)
+      run := run ++ res.evs.map (ofCEv r)
+      dropped := dropped ++ (insts.filter fun pi => (find pi.1 res.w.insts).isNone).map fun pi => (r.idx, pi.1, pi.2.gen)
+      ub := ub || res.ub
+      out := out ++ [RsSt.cg res.w.insts res.w.nextGen]
+      n := res.w.now
+      c := res.w.ctr
+  return ({ pre := pre, run := run, dropped := dropped, ub := ub }, out, n, c)
+
+/-! ### unification of model events with implementation events -/
+
+structure Uni where
+  objs : List (Obj × Nat) := []       -- bijection model object ↔ serial
+  uuids : List Nat := []             -- model uuid counter values in order of first appearance
+  ok : Bool := true
+  why : String := ""
+
+def Uni.fail (u : Uni) (w : String) : Uni := if u.ok then { u with ok := false, why := w } else u
+
+def Uni.bind (u : Uni) (o : Obj) (s : Nat) : Uni :=
+  match u.objs.find? fun p => p.1 == o with
+  | some (_, s') => if s' == s then u else u.fail s!"object {repr o} has serial {s'} in earlier events, {s} now"
+  | none =>
+    match u.objs.find? fun p => p.2 == s with
+    | some (o', _) => u.fail s!"serial {s} already stands for {repr o'}, now {repr o}"
+    | none => { u with objs := u.objs ++ [(o, s)] }
+
+def Uni.uuid (u : Uni) (m : Nat) : Uni × Int :=
+  match u.uuids.idxOf? m with
+  | some k => (u, k)
+  | none => ({ u with uuids := u.uuids ++ [m] }, u.uuids.length)
+
+def unify1 (u : Uni) (m : MEv) (e : IEv) : Uni :=
+  match m, e with
+  | MEv.i o arg, IEv.i n s arg' =>
+    if o.plugin == n && arg == arg' then u.bind o s else u.fail s!"init differs: model {repr m} impl {repr e}"
+  | MEv.p o, IEv.p n s => if o.plugin == n then u.bind o s else u.fail s!"prerun differs: model {repr m} impl {repr e}"
+  | MEv.d o now rcg, IEv.d n s now' rcg' =>
+    if o.plugin == n && now == now' && rcg == rcg' then u.bind o s else u.fail s!"detector run differs: model {repr m} impl {repr e}"
+  | MEv.a o now rcg rs grp uu dl inv tg key, IEv.a n s now' rcg' rs' grp' uu' dl' inv' tg' key' =>
+    let (u1, k) := u.uuid uu
+    if o.plugin == n && now == now' && rcg == rcg' && rs == rs' && grp == grp' && k == uu' && Int.ofNat dl == dl'
+        && inv == inv' && tg == tg' && key == key'
+    then u1.bind o s else u.fail s!"action run differs: model {repr m} (uuid#{k}) impl {repr e}"
+  | _, _ => u.fail s!"event kind differs: model {repr m} impl {repr e}"
+
+/-- the order in which the plugin objects of a new instance are constructed is not observable:
+maximal blocks of consecutive `init` events are compared in plugin-id order -/
+def sortInitBlocks {α : Type} (isInit : α → Bool) (key : α → Nat) (l : List α) : List α :=
+  let flush (blk : List α) : List α := (blk.toArray.qsort fun a b => key a < key b).toList
+  let (out, blk) := l.foldl (fun (acc : List α × List α) e =>
+    if isInit e then (acc.1, acc.2 ++ [e]) else (acc.1 ++ flush acc.2 ++ [e], [])) ([], [])
+  out ++ flush blk
+
+def unifySeq (u : Uni) : List MEv → List IEv → Uni
+  | [], [] => u
+  | m :: ms, e :: es => unifySeq (unify1 u m e) ms es
+  | ms, es => u.fail s!"length differs: {ms.length} more model events, {es.length} more implementation events"
+
+def mObj : MEv → Obj
+  | .i o _ => o | .p o => o | .d o _ _ => o | .a o _ _ _ _ _ _ _ _ _ => o
+
+/-- prerun phase of one ruleset: the template's preruns in order, then one block per instance; blocks
+are compared per instance (iteration order of the unordered_map is free) -/
+def unifyPre (u : Uni) (m : List MEv) (e : List IEv) : Uni :=
+  let mt := m.filter fun x => (mObj x).path == tmpl
+  let mi := m.filter fun x => (mObj x).path != tmpl
+  let u1 := unifySeq u mt (e.take mt.length)
+  let rest := e.drop mt.length
+  if rest.length != mi.length then u1.fail s!"prerun phase: {mi.length} instance preruns in the model, {rest.length} in the implementation"
+  else
+    -- every implementation prerun must belong to a known object; per instance the sequences must agree
+    let keysM := (mi.map fun x => ((mObj x).path, (mObj x).gen)).eraseDups
+    keysM.foldl (fun u k =>
+      let mseq := (mi.filter fun x => ((mObj x).path, (mObj x).gen) == k).map fun x => (mObj x).plugin
+      let serials := (u.objs.filter fun p => (p.1.r, p.1.path, p.1.gen) == ((mi.head?.map fun x => (mObj x).r).getD 0, k.1, k.2)).map (·.2)
+      let iseq := (rest.filter fun x => serials.contains x.serial).map (·.inst)
+      if mseq == iseq then u else u.fail s!"prerun phase of instance {k.1} (generation {k.2}): model {mseq} implementation {iseq}") u1
+
+/-! ### reference checker: the clauses of C11 on the implementation trace -/
+
+structure ObjI where
+  serial : Nat
+  inst : Nat
+  birth : Int          -- tick of init (−1: at compile time)
+  death : Option Nat   -- tick of destruction
+  arg : String
+
+/-- per-instance abstract state for the behavioural clauses (pause deadline, suspended chain) -/
+structure Abs where
+  pauseUntil : Nat := 0
+  susp : Option (Nat × (String × String × Int × Int)) := none
+
+def takeThrough (sc : Nat → Call) : List Nat → List Nat
+  | [] => []
+  | a :: as => if (sc a).ret == Ret.cont then a :: takeThrough sc as else [a]
+
+def groupFires (sc : Nat → Call) (g : Group) : Bool := g.dets.all fun d => (sc d).ret != Ret.stop
+
+/-- is the path a current match of ruleset `r` at this tick, by the property's wording -/
+def curMatches (r : RsJ) (t : TickJ) : List String :=
+  (t.cgs.filter fun c => c.isDir && c.m.getD r.idx 0 > 0 && c.openable && (!r.cfg.filter || (c.x && !c.xerr))).map (·.path)
+
+structure ChkSt where
+  ident : List ((Nat × String) × List Nat) := []        -- (ruleset, path) ↦ detector object serials at the previous tick
+  actSer : List ((Nat × String × Nat) × Nat) := []      -- (ruleset, path, action) ↦ object serial while present
+  abs : List ((Nat × String) × Abs) := []
+
+def checkTick (rss : List RsJ) (objs : List ObjI) (k : Nat) (t : TickJ) (it : ITick) (prev : List (List String))
+    (S : ChkSt) : List String × ChkSt × List (List String) := Id.run do
+  let mut v : List String := []
+  let mut S' : ChkSt := {}
+  let mut cur : List (List String) := []
+  let all := it.pre ++ it.run
+  for r in rss do
+    if !r.isCg then
+      cur := cur ++ [[]]
+      continue
+    let P := curMatches r t
+    cur := cur ++ [P]
+    let prevP := prev.getD r.idx []
+    let detIds := r.cfg.rs.groups.flatMap (·.dets)
+    let mine := it.run.filter fun e => e.isRun && (detIds.contains e.inst || r.cfg.rs.actions.contains e.inst)
+    -- nothing runs for a path that is not a current match
+    if mine.any fun e => !P.contains e.rcg then v := v ++ ["C11.once_per_match.only_matching"]
+    for p in P do
+      let evs := mine.filter fun e => e.rcg == p
+      let dets := evs.filter fun e => match e with | IEv.d .. => true | _ => false
+      let acts := evs.filter fun e => match e with | IEv.a .. => true | _ => false
+      -- each detector exactly once (their order within the evaluation is C02's subject, not compared here)
+      let sortN (l : List Nat) : List Nat := (l.toArray.qsort (· < ·)).toList
+      let once := sortN (dets.map (·.inst)) == sortN detIds
+      if !once then v := v ++ ["C11.once_per_match"]
+      let ident := ((dets.toArray.qsort fun a b => a.inst < b.inst).toList).map (·.serial)
+      let wasPresent := prevP.contains p
+      let fresh := !wasPresent
+      -- object identity: same objects while present, new objects after absence
+      match S.ident.lookup (r.idx, p) with
+      | some old =>
+        if wasPresent && old != ident && once then v := v ++ ["C11.state_persists_while_present"]
+      | none => pure ()
+      if fresh then
+        let born (s : Nat) : Bool := match objs.find? fun o => o.serial == s with
+          | some o => o.birth == Int.ofNat k
+          | none => false
+        if !(ident.all born) || !(acts.all fun e => born e.serial) then v := v ++ ["C11.fresh_after_absence"]
+      S' := { S' with ident := S'.ident ++ [((r.idx, p), ident)] }
+      for e in acts do
+        match (if wasPresent then S.actSer.lookup (r.idx, p, e.inst) else none) with
+        | some s => if s != e.serial then v := v ++ ["C11.state_persists_while_present"]
+        | none => pure ()
+      -- action objects seen so far for this instance
+      let carried := if wasPresent then S.actSer.filter fun q => q.1.1 == r.idx && q.1.2.1 == p else []
+      let newSeen := (acts.map fun e => ((r.idx, p, e.inst), e.serial)).filter fun q => !(carried.any fun c => c.1 == q.1)
+      S' := { S' with actSer := S'.actSer ++ carried ++ newSeen.eraseDups }
+      -- default target: ActionContext.target_cgroup is the instance's cgroup; the `cgroup` argument is
+      -- the instance's cgroup unless the action names its own
+      for e in acts do
+        match e with
+        | IEv.a n _ _ rcg _ _ _ _ _ tg key =>
+          let want := (r.ownL.lookup n).getD rcg
+          if tg != rcg || key != want then v := v ++ ["C11.default_target"]
+        | _ => pure ()
+      -- behaviour of the instance from its own state only (fresh state after absence)
+      let sc := scriptOf t p
+      let A : Abs := if wasPresent then (S.abs.lookup (r.idx, p)).getD {} else {}
+      let firedG := r.cfg.rs.groups.find? (groupFires sc)
+      let T? : Option Nat := dets.getLast?.map fun e => e.now + (sc e.inst).adv
+      let paused := match T? with | some T => decide (T < A.pauseUntil) | none => false
+      let startIdx : Option Nat :=
+        if paused then none else match A.susp with
+          | some (i, _) => some i
+          | none => if firedG.isSome then some 0 else none
+      let expected := match startIdx with | none => [] | some i => takeThrough sc (r.cfg.rs.actions.drop i)
+      let got := acts.map (·.inst)
+      let ctxOf : IEv → (String × String × Int × Int) := fun e => match e with
+        | IEv.a _ _ _ _ rs g u d _ _ _ => (rs, g, u, d) | _ => ("", "", -1, -1)
+      if T?.isSome && got != expected then
+        v := v ++ [if fresh then "C11.fresh_after_absence.state" else "C11.state_persists_while_present.state"]
+      else
+        match acts.head?, (if paused then none else A.susp) with
+        | some e0, some (_, c) => if ctxOf e0 != c then v := v ++ ["C11.state_persists_while_present.state"]
+        | _, _ => pure ()
+      let mut A' : Abs := A
+      match acts.getLast? with
+      | none => pure ()
+      | some e =>
+        let c := sc e.inst
+        let tEnd := e.now + c.adv
+        match c.ret with
+        | Ret.stop => A' := { pauseUntil := tEnd + (c.pause.getD r.cfg.rs.delay), susp := none }
+        | Ret.async => A' := { A' with susp := some ((r.cfg.rs.actions.idxOf? e.inst).getD 0, ctxOf e) }
+        | Ret.cont => A' := { A' with susp := none }
+      S' := { S' with abs := S'.abs ++ [((r.idx, p), A')] }
+    -- instances of paths that stopped matching are discarded on this tick
+    for ((ri, p), ident) in S.ident do
+      if ri == r.idx && !P.contains p then
+        let gone (s : Nat) : Bool := match objs.find? fun o => o.serial == s with
+          | some o => (match o.death with | some d => d ≤ k | none => false)
+          | none => false
+        if !(ident.all gone) then v := v ++ ["C11.discarded_when_absent"]
+    -- creation: the `cgroup` argument of new action objects
+    for e in it.run do
+      match e with
+      | IEv.i n _ arg =>
+        if r.cfg.rs.actions.contains n then
+          match r.ownL.lookup n with
+          | some c => if arg != c then v := v ++ ["C11.default_target"]
+          | none => if !P.contains arg then v := v ++ ["C11.default_target"]
+      | _ => pure ()
+    -- prerun on every tick: every plugin object of an instance that exists after this tick was prerun on
+    -- this tick, before it ran
+    for o in objs do
+      let mineO := detIds.contains o.inst || r.cfg.rs.actions.contains o.inst
+      let alive := o.birth ≥ 0 && o.birth ≤ Int.ofNat k && (match o.death with | some d => d > k | none => true)
+      if mineO && alive then
+        let iP := all.findIdx? fun e => (match e with | IEv.p .. => true | _ => false) && e.serial == o.serial
+        let iR := all.findIdx? fun e => e.isRun && e.serial == o.serial
+        match iP, iR with
+        | none, _ => v := v ++ ["C11.prerun_every_tick"]
+        | some a, some b => if b < a then v := v ++ ["C11.prerun_every_tick"]
+        | _, _ => pure ()
+  return (v, S', cur)
+
+def collectObjs (compile : List IEv) (ticks : List ITick) : List ObjI := Id.run do
+  let mut objs : List ObjI := compile.filterMap fun e => match e with
+    | IEv.i n s a => some { serial := s, inst := n, birth := -1, death := none, arg := a }
+    | _ => none
+  let mut k := 0
+  for t in ticks do
+    for e in t.pre ++ t.run do
+      match e with
+      | IEv.i n s a => objs := objs ++ [{ serial := s, inst := n, birth := Int.ofNat k, death := none, arg := a }]
+      | IEv.x _ s => objs := objs.map fun o => if o.serial == s then { o with death := some k } else o
+      | _ => pure ()
+    k := k + 1
+  return objs
+
+/-! ### entry point -/
+
+def priority : List String :=
+  ["C11.no_error", "trace", "C11.once_per_match", "C11.prerun_every_tick", "C11.discarded_when_absent",
+   "C11.fresh_after_absence", "C11.state_persists_while_present", "C11.default_target"]
+
+def rank (c : String) : Nat := (priority.findIdx? fun p => c.startsWith p).getD priority.length
 
 def handle (j : Json) : Json :=
-  Json.mkObj [("id", Json.str (jstr (jobj j "s") "id")), ("error", Json.str "engine rscgroup not implemented")]
+  let sc := jobj j "s"
+  let tr := jobj j "t"
+  let id := jstr sc "id"
+  let rss := (jarr sc "rulesets").zipIdx.map fun (r, i) => parseRs i r
+  let ticks := (jarr sc "ticks").map parseTick
+  let outcome := jstr tr "outcome"
+  if outcome != "ok" then
+    let c := s!"C11.no_error:{outcome}"
+    verdict id false false [c] c [("model_ub", Json.null)]
+  else
+  let F : Fixes := if jbool sc "model_unfixed" then Fixes.none else {}
+  let compile := (jarr tr "compile").map parseIEv
+  let iticks : List ITick := (jarr tr "ticks").map fun t =>
+    { pre := (jarr t "pre").map parseIEv, run := (jarr t "run").map parseIEv }
+  -- model
+  let instOwner (n : Nat) : Nat :=
+    ((rss.find? fun r => (r.cfg.rs.groups.flatMap (·.dets)).contains n || r.cfg.rs.actions.contains n).map (·.idx)).getD 0
+  let u0 : Uni := unifySeq {} (rss.flatMap fun r =>
+      ((r.cfg.rs.groups.flatMap (·.dets)) ++ r.cfg.rs.actions).map fun i => MEv.i ⟨r.idx, tmpl, 0, i⟩ (argS (r.cfg.own i)))
+    compile
+  let init : List RsSt := rss.map fun r => if r.isCg then RsSt.cg [] 0 else RsSt.plain {}
+  let step (acc : Uni × List RsSt × Nat × Nat × Nat × Bool) (ti : TickJ × ITick) : Uni × List RsSt × Nat × Nat × Nat × Bool :=
+    let (u, sts, now, ctr, k, ub) := acc
+    let (t, it) := ti
+    let orders := rss.map fun r =>
+      let detIds := r.cfg.rs.groups.flatMap (·.dets)
+      ((it.run.filter fun e => (match e with | IEv.d .. => true | _ => false) && detIds.contains e.inst).map (·.rcg)).eraseDups
+    let (m, sts', now', ctr') := modelTick F rss t orders sts now ctr
+    let u := if u.ok then u else u
+    let tag (u : Uni) : Uni := if u.ok then u else { u with why := if u.why.startsWith "tick" then u.why else s!"tick {k}: {u.why}" }
+    -- prerun phase, per ruleset
+    let u1 := (rss.zip m.pre).foldl (fun u (r, mp) => unifyPre u mp (it.pre.filter fun e => instOwner e.inst == r.idx)) u
+    let ordered := ((it.pre.map fun e => instOwner e.inst).zip ((it.pre.map fun e => instOwner e.inst).drop 1)).all fun (a, b) => a ≤ b
+    let u1 := if ordered then u1 else u1.fail "prerun phase not in ruleset order"
+    -- run phase, one sequence
+    let u2 := unifySeq (tag u1)
+      (sortInitBlocks (fun e => match e with | MEv.i .. => true | _ => false) (fun e => (mObj e).plugin) m.run)
+      (sortInitBlocks (fun e => match e with | IEv.i .. => true | _ => false) (·.inst) (it.run.filter fun e => !e.isX))
+    -- discarded objects
+    let xs := (it.run.filter (·.isX)).map (·.serial)
+    let ds := (u2.objs.filter fun p => m.dropped.contains (p.1.r, p.1.path, p.1.gen)).map (·.2)
+    let u3 := if xs.all ds.contains && ds.all xs.contains then u2 else (tag u2).fail s!"destroyed objects {xs}, the model discards {ds}"
+    (tag u3, sts', now', ctr', k + 1, ub || m.ub)
+  let (u, _, _, _, _, ub) := (ticks.zip iticks).foldl step (u0, init, 1000 * NS, 0, 0, false)
+  let accepts := u.ok && iticks.length == ticks.length && !ub
+  -- property clauses
+  let objs := collectObjs compile iticks
+  let chk (acc : List String × ChkSt × List (List String) × Nat) (ti : TickJ × ITick) :=
+    let (v, S, prev, k) := acc
+    let (v', S', cur) := checkTick rss objs k ti.1 ti.2 prev S
+    (v ++ v', S', cur, k + 1)
+  let (viol0, _, _, _) := (ticks.zip iticks).foldl chk ([], {}, [], 0)
+  let viol1 := if iticks.length == ticks.length then viol0 else viol0 ++ ["trace.missing_ticks"]
+  let viol := (viol1.eraseDups.toArray.qsort fun a b => rank a < rank b || (rank a == rank b && a < b)).toList
+  let cls := (viol.head?.map fun c => (c.splitOn ".").take 2 |> ".".intercalate).getD ""
+  verdict id accepts viol.isEmpty viol cls [("why", Json.str u.why), ("model_ub", Json.bool ub)]
 
 end Driver.Rscgroup
 
